@@ -240,6 +240,16 @@ func (s *PathState) compute(v ssa.Value) *Term {
 			l := s.T(x.High)
 			return mk("make", "slice", "makeslice@"+s.iid(al), v, l)
 		}
+		if al, ok := x.X.(*ssa.Alloc); ok && x.Low == nil && x.High == nil && x.Max == nil && al.Comment != "slicelit" && al.Comment != "varargs" {
+			// var buf [n]byte; buf[:] — a fresh zeroed byte buffer of this call, like make([]byte, n)
+			if pt, ok := al.Type().Underlying().(*types.Pointer); ok {
+				if at, ok := pt.Elem().Underlying().(*types.Array); ok {
+					if eb, ok := at.Elem().Underlying().(*types.Basic); ok && eb.Kind() == types.Uint8 {
+						return mk("make", "slice", "makeslice@"+s.iid(al), v, intConst(at.Len()))
+					}
+				}
+			}
+		}
 		a := s.T(x.X)
 		args := []*Term{a}
 		k := "slice(" + a.K
@@ -296,7 +306,7 @@ func fieldName(t types.Type, i int) string {
 		t = p.Elem()
 	}
 	if st, ok := t.Underlying().(*types.Struct); ok && i < st.NumFields() {
-		return st.Field(i).Name()
+		return CanonField(t, i)
 	}
 	return fmt.Sprintf("f%d", i)
 }
